@@ -420,6 +420,19 @@ Example mini_bad_unguarded :
   /\ all_guarded [("_exec"%string, "communicate"%string)] mini_bad = true.
 Proof. vm_compute. repeat split; reflexivity. Qed.
 
+(* a wait inside a handler that catches Timeout is not bounded by the scope around the
+   `try` nor by the caller's scope (seeded change C14-3: p.wait() after the timer fired) *)
+Definition mini_expired : list site :=
+  [mk_site "P" "attempt" "_try" KCall None 1;
+   mk_site "P" "_try" "_exec" KCall (Some (TSingle, 2)) 3;
+   mk_site "P" "_exec" "communicate" KProc None 4;
+   mk_site "P" "_exec" "wait" KProc (Some (TExpired, 5)) 6].
+
+Example mini_expired_unguarded :
+  map s_callee (unguarded mini_expired) = ["wait"%string]
+  /\ method_scope mini_expired "P" "_exec" = None.
+Proof. vm_compute. split; reflexivity. Qed.
+
 (* a scope whose expression is not a configured timeout does not guard *)
 Example literal_timeout_is_no_guard :
   all_guarded [] [mk_site "C" "_run" "get_banner" KExchange (Some (TOther "None", 1)) 2] = false.
